@@ -64,7 +64,10 @@ def _digest(engine_name):
     cases = json.load(sys.stdin)
     out = []
     for c in cases:
-        r = core.run_case(engine, c)
+        # each case in a fork of this still pristine interpreter: same cold state as a
+        # pool worker's child (CPython's line-event emission is not identical between the
+        # first and later executions of a code object)
+        r = core.run_case_forked(engine, c)
         if r.get("harness_error"):
             sys.stderr.write(r["harness_error"])
             return 2
